@@ -65,6 +65,33 @@ class ExprMixin:
         items = [self.ev(e, st) for e in node.elts]
         return self.new_list(st, items)
 
+    def ev_ListComp(self, node, st):
+        """[elt for targets in iterable] with one generator and no condition: a sequence snapshot whose element k is the
+        element expression evaluated with the targets bound to item k of the iterable (evaluated on demand, also for a
+        symbolic k; the caller states 0 <= k < length on the path it evaluates it on)."""
+        if len(node.generators) != 1 or node.generators[0].ifs or getattr(node.generators[0], 'is_async', 0):
+            raise Unsupported('list comprehension with several generators or a condition')
+        gen = node.generators[0]
+        lo, hi, getter = self.iter_view(gen.iter, st, node)
+        env = dict(st.vars)
+
+        def get(k, state=None):
+            s2 = (state or st).fork()
+            s2.pc = (state or st).pc        # obligations and assumptions of the element land on the evaluating path
+            s2.vars = dict(env)
+            self.assign(gen.target, getter(lo + k, s2), s2, node)
+            v = self.ev(node.elt, s2)
+            base = state or st
+            for oid_, o_ in s2.heap.items():        # objects the element refers to (rows of a collection) live on
+                if oid_ not in base.heap:
+                    base.heap[oid_] = o_
+            return v
+        n = hi - lo
+        if not is_z3(n):
+            items = [get(k) for k in range(max(0, n))]
+            return self.new_list(st, items)
+        return Seq(get, n, 'any')
+
     def ev_Dict(self, node, st):
         d = {}
         for k, v in zip(node.keys, node.values):
@@ -497,6 +524,12 @@ class ExprMixin:
             raise Unsupported('enum member attribute .%s' % attr)
         if isinstance(base, (dict, tuple, str)):
             return FuncV('method.' + attr, bound=base)
+        if isinstance(base, PoolV):
+            if attr == '_processes':
+                n = fresh('pool_processes', IntS)       # number of worker processes: some positive integer
+                st.assume(n >= 1)
+                return n
+            return FuncV('method.pool_' + attr, bound=base)
         raise Unsupported('attribute .%s on %r (line %s, %s)' % (attr, type(base), getattr(node, 'lineno', '?'), self.fname))
 
     def rec_field(self, obj, attr, node):
